@@ -25,7 +25,7 @@ def cases(tier, seed):
 def requirements(tier):
     return {"min_counters": {"invariant_evaluations": 500 if tier == "quick" else 8000, "intensity_checks": 1000, "after_refused_edit": 5},
             "required_classes": ["server_shared_by_patterns", "network_shared", "device_shared", "country_shared", "multi_timezone",
-                                 "job_shared_by_2_patterns", "disjoint_windows"]}
+                                 "job_shared_by_2_patterns", "disjoint_windows", "builder_model"]}
 
 
 def check_system(system, objs, spec):
@@ -144,9 +144,13 @@ def check_system(system, objs, spec):
 
 def run_case(case):
     rnd = case_rng(case["seed"], case["idx"], "C02")
-    h = Hist(rnd, case["tier"])
+    spec0 = None
+    if case["idx"] % 8 == 5:
+        from .c17 import builder_spec
+        spec0 = builder_spec(rnd)
+    h = Hist(rnd, case["tier"], spec=spec0)
     C = {"invariant_evaluations": 0, "intensity_checks": 0, "objects_walked": 0, "after_refused_edit": 0, "edits_applied": 0, "build_failed": 0}
-    classes = set(gen.topo_classes(h.spec))
+    classes = set(gen.topo_classes(h.spec)) | ({"builder_model"} if spec0 is not None else set())
     if h.build_error:
         C["build_failed"] = 1
         return {"counters": C, "classes": sorted(classes), "violations": []}
